@@ -57,6 +57,16 @@ def run_one(sid, tier, budget):
             if ap.returncode == 0:
                 meta["patch_used"] = "patch.diff (context auto-rebased onto a428420)"
                 shutil.copy(auto, os.path.join(d, "patch_rebased.diff"))
+        if ap.returncode != 0 and patch.endswith("patch.diff"):
+            # last resort: GNU patch with fuzz (commit a428420 also inserted a helper right after
+            # get_subconverter, which moved the context of patches touching that region)
+            src_patch = os.path.join(work, "auto_rebased.diff") if os.path.exists(os.path.join(work, "auto_rebased.diff")) else patch
+            sh(f"rm -rf {work}/mut && rsync -a --exclude .git --exclude __pycache__ {REPO}/ {work}/mut/")
+            ap = sh(f"cd {work}/mut && patch -p1 -F3 --no-backup-if-mismatch < {src_patch}")
+            if ap.returncode == 0:
+                dd = sh(f"cd {work} && diff -ru orig/src mut/src | sed -e 's#^--- orig/#--- a/#' -e 's#^+++ mut/#+++ b/#'")
+                open(os.path.join(d, "patch_rebased.diff"), "w").write(dd.stdout)
+                meta["patch_used"] = "patch.diff (rebased onto a428420 with patch -F3)"
         meta["patch_applies"] = ap.returncode == 0
         if ap.returncode != 0:
             meta["error"] = ap.stderr[-500:]
